@@ -576,8 +576,10 @@ where
         // add the new element in the qp vector as the last in the heap
         self.store.qp.push(Position(i));
         self.store.heap.push(Index(i));
-        self.bubble_up(Position(i), Index(i));
+        // the tables are consistent again from here on, even if a
+        // comparison panics while the new element is sifted up
         self.store.size += 1;
+        self.bubble_up(Position(i), Index(i));
         None
     }
 
@@ -908,28 +910,31 @@ where
         if position.0 > 0 {
             let parent = parent(position);
             let parent_priority = unsafe { self.store.get_priority_from_position(parent) };
-            let parent_index = unsafe { *self.store.heap.get_unchecked(parent.0) };
-            position = match (level(position) % 2 == 0, parent_priority < priority) {
+            // Find the destination first: the comparisons run user code that
+            // may panic, and the tables must stay consistent if they do
+            let (start, destination) = match (level(position) % 2 == 0, parent_priority < priority) {
                 // on a min level and greater then parent
-                (true, true) => {
-                    unsafe {
-                        *self.store.heap.get_unchecked_mut(position.0) = parent_index;
-                        *self.store.qp.get_unchecked_mut(parent_index.0) = position;
-                    }
-                    self.bubble_up_max(parent, map_position)
-                }
+                (true, true) => (parent, self.bubble_up_max(parent, priority)),
                 // on a min level and less then parent
-                (true, false) => self.bubble_up_min(position, map_position),
+                (true, false) => (position, self.bubble_up_min(position, priority)),
                 // on a max level and greater then parent
-                (false, true) => self.bubble_up_max(position, map_position),
+                (false, true) => (position, self.bubble_up_max(position, priority)),
                 // on a max level and less then parent
-                (false, false) => {
-                    unsafe {
-                        *self.store.heap.get_unchecked_mut(position.0) = parent_index;
-                        *self.store.qp.get_unchecked_mut(parent_index.0) = position;
-                    }
-                    self.bubble_up_min(parent, map_position)
+                (false, false) => (parent, self.bubble_up_min(parent, priority)),
+            };
+            // Then move down the parent (if the element changes side) and
+            // the grand parents on the way
+            let mut next = start;
+            while position != destination {
+                if position == next {
+                    next = self::parent(self::parent(position));
                 }
+                unsafe {
+                    let next_index = *self.store.heap.get_unchecked(next.0);
+                    *self.store.heap.get_unchecked_mut(position.0) = next_index;
+                    *self.store.qp.get_unchecked_mut(next_index.0) = position;
+                }
+                position = next;
             }
         }
 
@@ -942,40 +947,30 @@ where
         position
     }
 
-    fn bubble_up_min(&mut self, mut position: Position, map_position: Index) -> Position {
-        let priority = self.store.map.get_index(map_position.0).unwrap().1;
-        let mut grand_parent = Position(0);
-        while if position.0 > 0 && parent(position).0 > 0 {
-            grand_parent = parent(parent(position));
-            (unsafe { self.store.get_priority_from_position(grand_parent) }) > priority
-        } else {
-            false
-        } {
-            unsafe {
-                let grand_parent_index = *self.store.heap.get_unchecked(grand_parent.0);
-                *self.store.heap.get_unchecked_mut(position.0) = grand_parent_index;
-                *self.store.qp.get_unchecked_mut(grand_parent_index.0) = position;
+    /// Position that an element of the given priority reaches going up
+    /// the min levels from `position`, without moving anything
+    fn bubble_up_min(&self, mut position: Position, priority: &P) -> Position {
+        while position.0 > 0 && parent(position).0 > 0 {
+            let grand_parent = parent(parent(position));
+            if (unsafe { self.store.get_priority_from_position(grand_parent) }) > priority {
+                position = grand_parent;
+            } else {
+                break;
             }
-            position = grand_parent;
         }
         position
     }
 
-    fn bubble_up_max(&mut self, mut position: Position, map_position: Index) -> Position {
-        let priority = self.store.map.get_index(map_position.0).unwrap().1;
-        let mut grand_parent = Position(0);
-        while if position.0 > 0 && parent(position).0 > 0 {
-            grand_parent = parent(parent(position));
-            (unsafe { self.store.get_priority_from_position(grand_parent) }) < priority
-        } else {
-            false
-        } {
-            unsafe {
-                let grand_parent_index = *self.store.heap.get_unchecked(grand_parent.0);
-                *self.store.heap.get_unchecked_mut(position.0) = grand_parent_index;
-                *self.store.qp.get_unchecked_mut(grand_parent_index.0) = position;
+    /// Position that an element of the given priority reaches going up
+    /// the max levels from `position`, without moving anything
+    fn bubble_up_max(&self, mut position: Position, priority: &P) -> Position {
+        while position.0 > 0 && parent(position).0 > 0 {
+            let grand_parent = parent(parent(position));
+            if (unsafe { self.store.get_priority_from_position(grand_parent) }) < priority {
+                position = grand_parent;
+            } else {
+                break;
             }
-            position = grand_parent;
         }
         position
     }
